@@ -6,6 +6,8 @@ import (
 	"fmt"
 	"reflect"
 	"runtime"
+
+	"github.com/samsarahq/thunder/verifhook"
 )
 
 type pathError struct {
@@ -128,6 +130,7 @@ func prepareQuery(ctx context.Context, typ Type, selectionSet *SelectionSet, pre
 		}
 		prepared[key] = true
 	}
+	verifhook.At("prepare.visit")
 	switch typ := typ.(type) {
 	case *Scalar:
 		if selectionSet != nil {
